@@ -103,12 +103,16 @@ SRC_PREFIXES = {
 }
 
 
-def h_src(ctx, T, mode, prefix):
+def h_src(ctx, T, mode, prefix, nofile=False):
     """canonical prefix (drives the handler into each step) followed by T arbitrary events"""
     w = World(ctx)
     mode = ACK if mode == "ack" else UNACK
     sc = hsrc.SrcScenario(ctx, w, mode=mode, closure=bool(ctx.choice("closure", 2)), M=2)
-    o = sc.put()
+    if nofile:
+        from spacepackets.cfdp import MessageToUserTlv
+        o = sc.put(src=None, dst=None, msgs=[MessageToUserTlv(b"hello")])  # metadata-only request
+    else:
+        o = sc.put()
     ctx.prop("put_accepted", o.exc is None and o.ret is True, lambda: {"sig": rigs.exc_name(o.exc)})
     o = sc.sm()  # transaction start, Metadata PDU
     ctx.prop("first_call_ok", o.exc is None, lambda: {"sig": rigs.exc_sig(o.exc)})
@@ -150,11 +154,14 @@ def plan(tier):
                 continue
             specs.append(Spec(f"src/{mode}/after-{pre}/T={t}", "vf.harness.c10:h_src",
                               {"T": t, "mode": mode, "prefix": pre}, twin_share=0.05))
+        for pre in ("md", "sm1"):
+            specs.append(Spec(f"src/{mode}/metadata-only/after-{pre}/T={t}", "vf.harness.c10:h_src",
+                              {"T": t, "mode": mode, "prefix": pre, "nofile": True}, twin_share=0.05))
     return specs
 
 
 BOUNDS = {
-    "quick": "destination: after the canonical prefixes delivered / EOF with missing data / EOF first (limits 1 and 2) every sequence of N=2 events in which each PDU may arrive together with a timer expiry (clock advance 0..2 before the delivery); and from idle every sequence of N=4 events over {Metadata, File Data (offset<=2^20, length<=4000 symbolic), EOF, EOF(cancel, symbolic size), ACK(Finished), tick (dt 0..3), cancel request} plus, in last position, Prompt / Finished / NAK / Keep-Alive / ACK(EOF) / wrong direction / wrong destination id / unknown source id / cancel of another id; acknowledged (immediate and deferred NAK) and unacknowledged, closure on/off. Source: 9 canonical prefixes (one per reachable step) followed by every sequence of T=2 events over {no packet, tick, NAK (1 symbolic request), ACK(EOF), Finished, Keep-Alive, cancel} plus in last position put request / wrong sequence number / wrong ids / wrong direction / Metadata / EOF / Prompt / File Data / ACK(Finished); file of at most 2 segments",
+    "quick": "destination: after the canonical prefixes delivered / EOF with missing data / EOF first (limits 1 and 2) every sequence of N=2 events in which each PDU may arrive together with a timer expiry (clock advance 0..2 before the delivery); and from idle every sequence of N=4 events over {Metadata, File Data (offset<=2^20, length<=4000 symbolic), EOF, EOF(cancel, symbolic size), ACK(Finished), tick (dt 0..3), cancel request} plus, in last position, Prompt / Finished / NAK / Keep-Alive / ACK(EOF) / wrong direction / wrong destination id / unknown source id / cancel of another id; acknowledged (immediate and deferred NAK) and unacknowledged, closure on/off. Source: 9 canonical prefixes (one per reachable step) followed by every sequence of T=2 events over {no packet, tick, NAK (1 symbolic request), ACK(EOF), Finished, Keep-Alive, cancel} plus in last position put request / wrong sequence number / wrong ids / wrong direction / Metadata / EOF / Prompt / File Data / ACK(Finished); file of at most 2 segments; the same from the first two prefixes for a metadata-only put request (no file)",
     "thorough": "destination N=5, source T=3",
 }
 OUTSIDE = "longer sequences; fault-handler codes other than the defaults (C14); TLV options; large-file PDUs; PDUs are always drained between calls, so the positive direction of the unretrieved-PDU guard is not exercised"
